@@ -1,2 +1,3 @@
 //! Shared helpers for the correspondence harness: PRNG, hex, line output.
+pub mod server;
 pub mod util;
